@@ -323,6 +323,7 @@ static void pg_ctl_stmt (pgen_t *g) {
     int sgn = n->code == MIR_MULO || n->code == MIR_MULOS, uns = n->code == MIR_UMULO || n->code == MIR_UMULOS;
     n->n = sgn ? (int) vp_below (&g->r, 2) : uns ? 2 + (int) vp_below (&g->r, 2) : (int) vp_below (&g->r, 4);
     n->d = pg_reg (V_I, (int) vp_below (&g->r, PG_GEN)); n->a = vp_chance (&g->r, 15) ? pg_imm_i (pg_int (g)) : pg_rnd_reg (g, V_I); n->b = vp_chance (&g->r, 60) ? pg_rnd_reg (g, V_I) : pg_imm_i (pg_int (g));
+    if (vp_chance (&g->r, 15)) n->b = pg_imm_i ((int64_t) vp_below (&g->r, 4) - 1); /* -1, 0, 1, 2: what simplifiers rewrite (x * 1, x + 0) must keep the flag */
     if (vp_chance (&g->r, 12)) { /* both operands constant: the insn can be folded, its flag can not be forgotten - half of the time with a zero result and overflow */
       n->a = pg_imm_i (pg_int (g)); n->b = pg_imm_i (pg_int (g));
       if (vp_chance (&g->r, 50)) {
@@ -333,6 +334,10 @@ static void pg_ctl_stmt (pgen_t *g) {
     }
     n->variant = !sem_is32 (n->code) && vp_chance (&g->r, 40); /* a register move between the insn and the branch */
     p->n_ovf++;
+    if (vp_chance (&g->r, 25)) { /* the preceding insn leaves the machine's overflow flag set: only the overflow insn itself may decide the branch */
+      pg_emit (pg_op (MIR_MOV, pg_reg (V_I, PG_NI - 2), pg_imm_i (9223372036854775807LL), pg_imm_i (0)));
+      pg_emit (pg_op (MIR_ADD, pg_reg (V_I, PG_NI - 2), pg_reg (V_I, PG_NI - 2), pg_imm_i (1)));
+    }
     pg_emit (n);
     g->depth++;
     pg_stmts (g, &n->body[0], (int) vp_range (&g->r, 1, 2));
@@ -343,13 +348,13 @@ static void pg_ctl_stmt (pgen_t *g) {
     n->n = 2 + g->nalloca; n->variant = vp_chance (&g->r, 35); /* 1: size computed in a register */
     g->nalloca++; f->has_alloca = 1; p->n_alloca++;
     pg_emit (n);
-  } else if (w < 86 && f->nres > 0 && g->depth > 0) { /* early return */
+  } else if (w < 90 && f->nres > 0 && g->depth > 0) { /* early return */
     node_t *n = pg_new (N_RET); if (!n) return;
-    n->a = vp_chance (&g->r, 70) ? pg_rnd_reg (g, V_I) : pg_imm_i (pg_int (g)); n->b = pg_rnd_reg (g, V_D);
+    n->a = vp_chance (&g->r, 45) ? pg_rnd_reg (g, V_I) : pg_imm_i (pg_int (g)); n->b = pg_rnd_reg (g, V_D); /* mostly wide constants: out of range of a narrow result type */
     p->n_multi_ret++;
     pg_emit (n);
     g->ret_emitted = 1;
-  } else if (w < 89 && !(g->feat & PF_NO_IRRED) && g->depth < 2) { /* irreducible two-entry loop */
+  } else if (w < 93 && !(g->feat & PF_NO_IRRED) && g->depth < 2) { /* irreducible two-entry loop */
     node_t *n = pg_new (N_IRRED); if (!n) return;
     n->n = (int) vp_range (&g->r, 2, 5); n->creg = PG_NI - 3 - g->depth; n->a = pg_rnd_reg (g, V_I);
     p->n_irred++;
@@ -378,17 +383,45 @@ static void pg_alias_chain (pgen_t *g) {
   memset (&m, 0, sizeof m); m.kind = K_MEM; m.vt = V_I; m.mt = it[vp_below (&g->r, 8)]; m.base = (int) vp_below (&g->r, (uint64_t) nb); m.idx = -1; m.scale = 1;
   int za = (int) vp_below (&g->r, PG_ZONES);
   m.disp = za * zs + (int64_t) vp_below (&g->r, (uint64_t) zs - 8); m.alias = vp_chance (&g->r, 85) ? za + 1 : 0;
+  if (vp_chance (&g->r, 12)) { /* the same location loaded four times, with and without its alias set in turn, in up to four blocks: every load but the first is redundant */
+    opnd_t ma = m; ma.alias = m.alias ? 0 : za + 1;
+    opnd_t acc = pg_gen_reg (g);
+    pg_emit (pg_op (MIR_MOV, acc, m, m));
+    for (int k = 1; k < 4; k++) {
+      if (vp_chance (&g->r, 50)) pg_block_boundary (g);
+      opnd_t rk = pg_reg (V_I, PG_NI - 2);
+      pg_emit (pg_op (MIR_MOV, rk, k & 1 ? ma : m, m));
+      pg_emit (pg_op (k & 1 ? MIR_ADD : MIR_XOR, acc, acc, rk));
+    }
+    return;
+  }
   pg_emit (pg_op (MIR_MOV, r1, m, m));
   if (vp_chance (&g->r, 60)) pg_block_boundary (g); /* the stores start a new block */
   int ns = (int) vp_range (&g->r, 1, 4), own = (int) vp_below (&g->r, (uint64_t) ns);
+  if (vp_chance (&g->r, 15)) { /* the loaded value stored over a partly overlapping location of the same width and then back: the last store is not redundant */
+    opnd_t d = m;
+    d.disp = m.disp + (vp_chance (&g->r, 50) ? -1 : 1) * (int64_t) vp_range (&g->r, 1, (int64_t) sem_type_size (m.mt) > 1 ? (int64_t) sem_type_size (m.mt) - 1 : 1);
+    if (d.disp < 0) d.disp = 0;
+    if (d.disp > PG_BUF - 8) d.disp = PG_BUF - 8;
+    pg_set_alias (g, &d);
+    pg_emit (pg_op (MIR_MOV, d, r1, d));
+    pg_emit (pg_op (MIR_MOV, m, r1, m));
+    ns = 0;
+  }
   for (int k = 0; k < ns; k++) {
     opnd_t d = m;
     if (k != own || vp_chance (&g->r, 20)) { /* another location: same zone, another zone, or anywhere without an alias set */
       int z = vp_chance (&g->r, 35) ? za : (int) vp_below (&g->r, PG_ZONES);
       d.mt = it[vp_below (&g->r, 8)]; d.base = (int) vp_below (&g->r, (uint64_t) nb);
       d.disp = z * zs + (int64_t) vp_below (&g->r, (uint64_t) zs - 8); d.alias = vp_chance (&g->r, 30) ? 0 : z + 1;
+      if (vp_chance (&g->r, 25)) { /* a location that overlaps the loaded one partly (unaligned, another width) */
+        d.disp = m.disp + (int64_t) vp_below (&g->r, 15) - 7;
+        if (d.disp < 0) d.disp = 0;
+        if (d.disp > PG_BUF - 8) d.disp = PG_BUF - 8;
+        pg_set_alias (g, &d);
+      }
     } else if (vp_chance (&g->r, 25)) d.alias = 0;
-    pg_emit (pg_op (MIR_MOV, d, pg_rnd_reg (g, V_I), d));
+    pg_emit (pg_op (MIR_MOV, d, k == own && vp_chance (&g->r, 35) ? r1 : pg_rnd_reg (g, V_I), d)); /* sometimes the loaded value is stored back */
   }
   if (vp_chance (&g->r, 60)) pg_block_boundary (g); /* the second load is in a block after the stores */
   pg_emit (pg_op (MIR_MOV, r2, m, m));
